@@ -574,6 +574,18 @@ func Run(c Case) (res Result, sig string, err error) {
 				return res, "no-echo", fmt.Errorf("connection stopped answering after a malformed %s message %s", a.Typ, a.Raw)
 			}
 			feats["malformed"] = true
+		case "partial-frame":
+			// a frame that leaves out "id" and/or "type": the missing member is empty, it must
+			// not be taken from an earlier frame
+			allowedThisSeg["error:"+a.ID] = true
+			allowedThisSeg["error:"] = true
+			// directly behind a complete frame that names the id (an echo: no effect of its own)
+			sock.SendEnvelope(a.ID, "echo", map[string]interface{}{"query": "{ __typename }", "variables": map[string]interface{}{}})
+			sock.Send([]byte(a.Raw))
+			if !barrier() {
+				return res, "no-echo", fmt.Errorf("connection stopped answering after the partial frame %s", a.Raw)
+			}
+			feats["partial-frame"] = true
 		case "unknown-type":
 			allowedThisSeg["error:"+a.ID] = true
 			sock.SendEnvelope(a.ID, a.Typ, nil)
@@ -812,7 +824,7 @@ func Gen(t *rapid.T, lifecycle bool) Case {
 		return typ, int64(rapid.IntRange(0, s.NIds-1).Draw(t, "eid"))
 	}
 	n := rapid.IntRange(4, 30).Draw(t, "nactions")
-	kinds := []string{"subscribe", "subscribe", "subscribe", "unsubscribe", "write", "write", "write", "write", "write", "mutate", "echo", "pause"}
+	kinds := []string{"subscribe", "subscribe", "subscribe", "unsubscribe", "write", "write", "write", "write", "write", "mutate", "echo", "pause", "partial-frame"}
 	if lifecycle {
 		kinds = append(kinds, "failnext", "malformed-message", "unknown-type", "close", "cancel", "mutate", "subscribe")
 	}
@@ -857,6 +869,9 @@ func Gen(t *rapid.T, lifecycle bool) Case {
 			a.ID = rapid.SampledFrom(ids).Draw(t, "id")
 			a.Typ = rapid.SampledFrom([]string{"subscribe", "mutate", "url", "unsubscribe"}).Draw(t, "mtyp")
 			a.Raw = rapid.SampledFrom([]string{`"x"`, `5`, `[]`, `{"query": 5}`, `{"query": "{", "variables": {}}`, `{"query": "{ nope }"}`, `null`, `{"query":"{ __typename }","variables":[1]}`}).Draw(t, "raw")
+		case "partial-frame":
+			a.ID = rapid.SampledFrom(ids).Draw(t, "id")
+			a.Raw = strings.Replace(rapid.SampledFrom([]string{`{"type":"unsubscribe"}`, `{"id":"ID"}`, `{}`, `{"message":{"query":"{ __typename }"}}`, `{"type":"unsubscribe","message":null}`, `{"id":"ID","message":5}`}).Draw(t, "partial"), "ID", a.ID, 1)
 		case "unknown-type":
 			a.ID = rapid.SampledFrom(ids).Draw(t, "id")
 			a.Typ = rapid.SampledFrom([]string{"", "ping", "SUBSCRIBE"}).Draw(t, "utyp")
